@@ -306,6 +306,8 @@ type ExtNestedClaims struct {
 	// a claim that exists in the CBOR form only, and one that exists in JSON only
 	Internal *string `cbor:"-75602,keyasint,omitempty" json:"-"`
 	Comment  *string `cbor:"-" json:"x-comment,omitempty"`
+	// a claim of its own whose Go field NAME equals that of a base claim (other key)
+	VSI *string `cbor:"-75603,keyasint,omitempty" json:"x-vendor-vsi,omitempty"`
 }
 
 func (o *ExtNestedClaims) Validate() error { return psatoken.ValidateClaims(o) }
